@@ -9,9 +9,10 @@
 -/
 import Hy.Proofs.Frame
 import Hy.Gen.SitesC04
+import Hy.Gen.TransVarint
 set_option linter.unusedSimpArgs false
 namespace Hy.Props.C04
-open Hy Hy.Frame Hy.Varint
+open Hy Hy.Frame Hy.Varint Hy.GoInt
 
 /-! ### obligations on the regenerated constants (a changed constant fails here) -/
 theorem const_addr : Gen.MaxAddressLength = 2048 := by decide
@@ -149,6 +150,138 @@ theorem alloc_bounded (cs : List Bytes) :
       · split
         · omega
         · rename_i h; rw [const_msg] at h; omega
+
+/-! ### `varintPut` as TRANSLATED from the current Go source equals the model's encoder
+
+`Hy.Gen.TransVarint.varintPut` is regenerated on every run by `verifgen translate` from the text of
+`varintPut` in core/internal/protocol/proxy.go (go/ast → Lean, Go's uint64/uint8 semantics explicit,
+the package constants `maxVarInt1…8` resolved to their current values).  The theorems below are
+about ALL inputs, so the tie between `Varint.enc` (which every round-trip theorem above is about)
+and the writer's encoder does not rest on sampling: a change to the Go function changes the
+regenerated definition, and these proofs either still go through (harmless rewrite) or fail. -/
+
+/-- for every value that fits 62 bits and every buffer long enough, the translated `varintPut`
+    stores exactly the bytes of `Varint.enc n` at `b[0], b[1], …` (in order, each index once)
+    and returns their number -/
+theorem varintPut_translation_eq (n : Nat) (blen : Int) (hn : n ≤ maxVarInt8)
+    (hb : ((enc n).length : Int) ≤ blen) :
+    Gen.TransVarint.varintPut blen n = .ok (storesOf (enc n), ((enc n).length : Int)) := by
+  unfold maxVarInt8 at hn
+  unfold Gen.TransVarint.varintPut
+  by_cases h1 : n ≤ 63
+  · have e : enc n = [byte n] := by simp [enc, minW, encW, maxVarInt1, h1]
+    rw [e] at hb ⊢
+    simp only [List.length_cons, List.length_nil] at hb
+    rw [if_pos (by omega), if_neg (by omega)]
+    simp only [storesOf, storesFrom, byte_val, u8, List.length_cons, List.length_nil,
+      Res.ok.injEq, Prod.mk.injEq, List.cons.injEq, and_true]
+    omega
+  by_cases h2 : n ≤ 16383
+  · have e : enc n = [byte (n / 256 + 64), byte n] := by
+      simp [enc, minW, encW, maxVarInt1, maxVarInt2, h1, h2]
+    rw [e] at hb ⊢
+    simp only [List.length_cons, List.length_nil] at hb
+    rw [if_neg (by omega), if_pos (by omega), if_neg (by omega), if_neg (by omega)]
+    rw [lor_64 (by unfold u8; omega) (by unfold u8; omega)]
+    simp only [storesOf, storesFrom, byte_val, u8, List.length_cons, List.length_nil,
+      Res.ok.injEq, Prod.mk.injEq, List.cons.injEq, and_true]
+    omega
+  by_cases h4 : n ≤ 1073741823
+  · have e : enc n = [byte (n / 16777216 + 128), byte (n / 65536), byte (n / 256), byte n] := by
+      simp [enc, minW, encW, maxVarInt1, maxVarInt2, maxVarInt4, h1, h2, h4]
+    rw [e] at hb ⊢
+    simp only [List.length_cons, List.length_nil] at hb
+    rw [if_neg (by omega), if_neg (by omega), if_pos (by omega), if_neg (by omega), if_neg (by omega),
+      if_neg (by omega), if_neg (by omega)]
+    rw [lor_128 (by unfold u8; omega) (by unfold u8; omega)]
+    simp only [storesOf, storesFrom, byte_val, u8, List.length_cons, List.length_nil,
+      Res.ok.injEq, Prod.mk.injEq, List.cons.injEq, and_true]
+    omega
+  · have e : enc n = [byte (n / 72057594037927936 + 192), byte (n / 281474976710656),
+        byte (n / 1099511627776), byte (n / 4294967296), byte (n / 16777216), byte (n / 65536),
+        byte (n / 256), byte n] := by
+      simp [enc, minW, encW, maxVarInt1, maxVarInt2, maxVarInt4, h1, h2, h4]
+    rw [e] at hb ⊢
+    simp only [List.length_cons, List.length_nil] at hb
+    rw [if_neg (by omega), if_neg (by omega), if_neg (by omega), if_pos (by omega)]
+    rw [if_neg (by omega), if_neg (by omega), if_neg (by omega), if_neg (by omega),
+      if_neg (by omega), if_neg (by omega), if_neg (by omega), if_neg (by omega)]
+    rw [lor_192 (by unfold u8; omega) (by unfold u8; omega)]
+    simp only [storesOf, storesFrom, byte_val, u8, List.length_cons, List.length_nil,
+      Res.ok.injEq, Prod.mk.injEq, List.cons.injEq, and_true]
+    omega
+
+/-- the returned length is the one `quicvarint.Len` / the model's `wlen (minW n)` gives -/
+theorem varintPut_translation_len (n : Nat) (blen : Int) (hn : n ≤ maxVarInt8)
+    (hb : ((enc n).length : Int) ≤ blen) :
+    (Gen.TransVarint.varintPut blen n).bind (fun r => .ok r.2) = .ok ((wlen (minW n) : Nat) : Int) := by
+  rw [varintPut_translation_eq n blen hn hb]
+  simp only [Res.bind_ok, enc, encW_length]
+
+/-- a buffer shorter than the encoding makes the Go code panic (index out of range) — the
+    translation keeps the bounds check of every store -/
+theorem varintPut_translation_short_buffer (n : Nat) (blen : Int) (hn : n ≤ maxVarInt8)
+    (hb : blen < ((enc n).length : Int)) :
+    Gen.TransVarint.varintPut blen n = .panic := by
+  unfold maxVarInt8 at hn
+  have hl : (enc n).length = wlen (minW n) := by simp only [enc, encW_length]
+  rw [hl] at hb
+  unfold minW maxVarInt1 maxVarInt2 maxVarInt4 at hb
+  unfold Gen.TransVarint.varintPut
+  by_cases h1 : n ≤ 63
+  · simp only [h1, ↓reduceIte, wlen] at hb
+    rw [if_pos (by omega), if_pos (by omega)]
+  by_cases h2 : n ≤ 16383
+  · simp only [h1, h2, ↓reduceIte, wlen] at hb
+    rw [if_neg (by omega), if_pos (by omega)]
+    by_cases c0 : (0 : Int) < blen
+    · rw [if_neg (by omega), if_pos (by omega)]
+    · rw [if_pos c0]
+  by_cases h4 : n ≤ 1073741823
+  · simp only [h1, h2, h4, ↓reduceIte, wlen] at hb
+    rw [if_neg (by omega), if_neg (by omega), if_pos (by omega)]
+    by_cases c0 : (0 : Int) < blen
+    · rw [if_neg (by omega)]
+      by_cases c1 : (1 : Int) < blen
+      · rw [if_neg (by omega)]
+        by_cases c2 : (2 : Int) < blen
+        · rw [if_neg (by omega), if_pos (by omega)]
+        · rw [if_pos c2]
+      · rw [if_pos c1]
+    · rw [if_pos c0]
+  · simp only [h1, h2, h4, ↓reduceIte, wlen] at hb
+    rw [if_neg (by omega), if_neg (by omega), if_neg (by omega), if_pos (by omega)]
+    by_cases c0 : (0 : Int) < blen
+    · rw [if_neg (by omega)]
+      by_cases c1 : (1 : Int) < blen
+      · rw [if_neg (by omega)]
+        by_cases c2 : (2 : Int) < blen
+        · rw [if_neg (by omega)]
+          by_cases c3 : (3 : Int) < blen
+          · rw [if_neg (by omega)]
+            by_cases c4 : (4 : Int) < blen
+            · rw [if_neg (by omega)]
+              by_cases c5 : (5 : Int) < blen
+              · rw [if_neg (by omega)]
+                by_cases c6 : (6 : Int) < blen
+                · rw [if_neg (by omega), if_pos (by omega)]
+                · rw [if_pos c6]
+              · rw [if_pos c5]
+            · rw [if_pos c4]
+          · rw [if_pos c3]
+        · rw [if_pos c2]
+      · rw [if_pos c1]
+    · rw [if_pos c0]
+
+/-- above 2^62−1 the Go code panics ("doesn't fit into 62 bits"), whatever the buffer -/
+theorem varintPut_translation_too_large (n : Nat) (blen : Int) (hn : maxVarInt8 < n) :
+    Gen.TransVarint.varintPut blen n = .panic := by
+  unfold maxVarInt8 at hn
+  unfold Gen.TransVarint.varintPut
+  rw [if_neg (by omega), if_neg (by omega), if_neg (by omega), if_neg (by omega)]
+
+example : Gen.TransVarint.varintPut 8 16384 =
+    .ok ([(0, 128), (1, 0), (2, 64), (3, 0)], 4) := by decide
 
 /-! ### non-vacuity: concrete instances of the hypotheses -/
 example : (readRequest chunked [[byte 0x40], [byte 3, byte 97], [], [byte 98, byte 99, byte 1, byte 7, byte 9]]).map
